@@ -81,7 +81,9 @@ class Adapter:
         self.none_mask = cell.get('none_mask')
         self.arg_shapes = self._arg_shapes()
         self.bias = float(cell.get('magbias', 0.0))
-        if k.startswith('dwt') or k == 'swt':
+        if (k.startswith('dwt') or k == 'swt') and isinstance(cell['wave'], (list, tuple)):
+            g = max(float(np.abs(np.array(f)).sum()) for f in cell['wave']) ** (cell['J'] * (1 if k in ('dwt1f', 'dwt1i') else 2))
+        elif k.startswith('dwt') or k == 'swt':
             g = refs.l1gain(cell['wave'], self.inverse) ** (cell['J'] * (1 if k in ('dwt1f', 'dwt1i') else 2))
         elif k in ('dtf', 'dti'):
             g = refs.dtcwt_gain(cell['biort'], cell['qshift'], cell['J'], self.inverse)
